@@ -100,6 +100,14 @@ pub struct AxResult {
 /// `weak_sc`: SC accesses are only acquire/release (loom's documented behaviour);
 /// `strong_rs`: release sequences continue through later same-thread writes (RC11/C++11 form).
 pub fn enumerate(prog: &Program, weak_sc: bool, strong_rs: bool, budget: u64) -> AxResult {
+    enumerate_opt(prog, weak_sc, strong_rs, false, budget)
+}
+
+/// `op_fences`: additionally require that the order RC11 imposes on SeqCst fences (psc restricted
+/// to fences) is compatible with some execution order, i.e. `po ∪ rf ∪ psc_F` is acyclic. loom
+/// executes operations in one global order and orders SeqCst fences by that order, so it can only
+/// produce such executions (recorded finding F12).
+pub fn enumerate_opt(prog: &Program, weak_sc: bool, strong_rs: bool, op_fences: bool, budget: u64) -> AxResult {
     let mut evs: Vec<Ev> = vec![];
     let nlocs = prog.n_atomics();
     for l in 0..nlocs {
@@ -448,6 +456,14 @@ pub fn enumerate(prog: &Program, weak_sc: bool, strong_rs: bool, budget: u64) ->
                         if !acyclic(&psc) {
                             break 'thismo;
                         }
+                        if op_fences && fsc_mask.count_ones() >= 2 {
+                            let psc_f: Rel =
+                                (0..n).map(|i| if is_sc_fence(i) { (hb[i] | heh[i]) & fsc_mask & !(1 << i) } else { 0 }).collect();
+                            let exec_order = union2(&union2(&base, &rfrel), &psc_f);
+                            if !acyclic(&exec_order) {
+                                break 'thismo;
+                            }
+                        }
                     }
                     // consistent execution
                     res.execs += 1;
@@ -615,8 +631,16 @@ pub fn supports(prog: &Program) -> bool {
 pub struct Bracket {
     pub a: AxResult,
     pub u: AxResult,
+    /// `a` restricted to executions whose SeqCst-fence order is compatible with an execution order
+    /// (`None` when the program has fewer than two SeqCst fences: then it equals `a`)
+    pub a_op: Option<AxResult>,
 }
 
 pub fn bracket(prog: &Program, budget: u64) -> Bracket {
-    Bracket { a: enumerate(prog, false, true, budget), u: enumerate(prog, true, false, budget) }
+    let nf = prog.count(|o| matches!(o, Op::Fence { o: MO::Sc }));
+    Bracket {
+        a: enumerate(prog, false, true, budget),
+        u: enumerate(prog, true, false, budget),
+        a_op: if nf >= 2 { Some(enumerate_opt(prog, false, true, true, budget)) } else { None },
+    }
 }
